@@ -28,3 +28,4 @@ s=open('/verif/DESIGN.md').read()
 i=s.index('## 8. Sensitivity')
 open('/verif/DESIGN.md','w').write(s[:i]+'\n'.join(out)+'\n')
 print(c,'of',n)
+os.system('python3 /verif/tools/mkrevfix.py')
